@@ -12,4 +12,14 @@ sys.dont_write_bytecode = True
 from dsim import runner  # noqa: E402
 
 if __name__ == "__main__":
-    sys.exit(runner.main(sys.argv[1:]))
+    try:
+        rc = runner.main(sys.argv[1:])
+    except SystemExit:
+        raise
+    except BaseException:
+        import traceback
+
+        traceback.print_exc()
+        print("HARNESS-ERROR: unexpected exception in the driver")
+        rc = 2
+    sys.exit(rc)
